@@ -3,7 +3,9 @@
  R1 the unexpected-unit terms S_U(results_e) are present, grouped by the aggregate keys, in counted votes, prediction and both
     bounds at every non-classification level (nonparametric and gaussian estimators);
  R2 key availability: every key by which unexpected units are grouped is recovered for them (all office classes x request lists);
-    the id parsers doing that are total: no index >= 1 into the split id without a length guard (R2.parse-total);
+    the id parsers doing that are total: no index >= 1 into the split id without a length guard (R2.parse-total); each key comes from
+    ITS part of the id (R2.parser: the parser's decision tree is evaluated over ids of 1-3 parts, district / non-district unit types:
+    county_fips = second component of a <district>_<county> id else the first, district = the first);
  R3 bootstrap: S_U(results_margin) and S_U(results_weights) enter numerator and denominator of every aggregate quantity
     (prediction, the four bootstrap totals and the recomputed totals of the interval function); every quotient by a group turnout
     total maps 0/0 to 0 (R3.zero-turnout: a new group can have zero two-party votes);
